@@ -192,7 +192,7 @@ def cumsum_info(t):
   """(kind, operand, axis) for jax_numpy_utils.cumsum / reverse_cumsum calls."""
   if t.k == 'call' and t.a[0].k == 'func' and t.a[0].a[0] in (f'dinosaur.{JU}.cumsum', f'dinosaur.{JU}.reverse_cumsum'):
     args = list(t.a[1])
-    kw = dict(t.a[2])
+    kw = util.call_kwargs(t)
     x = args[0] if args else kw.get('x')
     axis = args[1] if len(args) > 1 else kw.get('axis')
     return t.a[0].a[0].rsplit('.', 1)[-1], x, axis, kw
@@ -234,7 +234,7 @@ def rule_integrals(chk, prog):
   v, ctx, env = ev.run(f)
   site, loc = f'{SC}.sigma_integral', (f.file, f.lineno)
   base = match.method_call(v, 'sum')
-  ok = base is not None and dict(v.a[2]).get('axis') == S('axis')
+  ok = base is not None and util.call_kwargs(v).get('axis') == S('axis')
   if chk.check(ok, rule, f'{site}: total integral is a sum along `axis`', sym.show(v)[:160], loc, '(x·Δσ).sum(axis=axis)', sym.show(v)[:160]):
     ok2, how = scaled_along_axis(base, S('x'), thick)
     chk.check(ok2, rule, f'{site}: the summed integrand is x · layer_thickness along `axis`', sym.show(base)[:200], base.loc or loc, 'x scaled by layer_thickness', sym.show(base)[:200])
@@ -250,7 +250,7 @@ def rule_integrals(chk, prog):
     ok = len(datas) == 1 and len(ws) == 1
     if chk.check(ok, rule, f'{site}: integrand scaled by one 1-D weight along `axis`', sym.show(E)[:160], loc):
       w = ws[0][2]
-      okw = (match.is_ext_call(w, 'diff') and len(w.a[1]) == 1 and dict(w.a[2]).get('append') == sym.const(0) and match.is_ext_call(w.a[1][0], 'log')
+      okw = (match.is_ext_call(w, 'diff') and len(w.a[1]) == 1 and util.call_kwargs(w).get('append') == sym.const(0) and match.is_ext_call(w.a[1][0], 'log')
              and match.attr_of(w.a[1][0].a[1][0], 'centers'))
       chk.check(okw, rule, f'{site}: the weight is Δ log σ of the layer centres with 0 appended (last interval ends at σ = 1)', sym.show(w), w.loc or loc,
                 'diff(log(centers), append=0)', sym.show(w))
@@ -275,7 +275,7 @@ def rule_integrals(chk, prog):
   ws = [x for x in fs if isinstance(x, tuple)]
   ok = len(datas) == 1 and len(ws) == 1 and datas[0].k == 'call' and util.callee_qual(datas[0]).endswith(f'{JU}.diff') and datas[0].a[1][0] == S('x')
   if chk.check(ok, rule, f'{site}: difference of neighbouring layers scaled by one weight', sym.show(v)[:200], loc):
-    kw = dict(datas[0].a[2])
+    kw = util.call_kwargs(datas[0])
     ax = kw.get('axis', datas[0].a[1][1] if len(datas[0].a[1]) > 1 else None)
     chk.check(ax == S('axis'), rule, f'{site}: differences are taken along `axis`', sym.show(ax) if ax is not None else 'default', loc)
     w = ws[0][2]
@@ -335,7 +335,7 @@ def rule_cumsum_dispatch(chk, prog):
     loc = (f.file, f.lineno)
     dot = ms[name].get('dot')
     if dot is not None:
-      kw = dict(dot.a[2]) if dot.k == 'call' else {}
+      kw = util.call_kwargs(dot) if dot.k == 'call' else {}
       b = ev.bind_args(prog.func(f'{JU}._dot_cumsum'), list(dot.a[1]), list(dot.a[2]), None, None) if dot.k == 'call' and util.callee_qual(dot).endswith('_dot_cumsum') else None
       ok = b is not None and b['x'] == S('x') and b['axis'] == S('axis') and b['sharding'] == S('sharding')
       rev = b is not None and b['reverse'] == sym.TRUE
@@ -343,8 +343,8 @@ def rule_cumsum_dispatch(chk, prog):
                 f'reverse={name == "reverse_cumsum"}', sym.show(dot))
     jx = ms[name].get('jax')
     if jx is not None:
-      cs = lambda t, x: match.is_ext_call(t, 'cumsum') and list(t.a[1])[:1] == [x] and (list(t.a[1])[1:2] == [S('axis')] or dict(t.a[2]).get('axis') == S('axis'))
-      fl = lambda t: match.is_ext_call(t, 'flip') and (list(t.a[1])[1:2] == [S('axis')] or dict(t.a[2]).get('axis') == S('axis'))
+      cs = lambda t, x: match.is_ext_call(t, 'cumsum') and list(t.a[1])[:1] == [x] and (list(t.a[1])[1:2] == [S('axis')] or util.call_kwargs(t).get('axis') == S('axis'))
+      fl = lambda t: match.is_ext_call(t, 'flip') and (list(t.a[1])[1:2] == [S('axis')] or util.call_kwargs(t).get('axis') == S('axis'))
       if name == 'cumsum':
         ok = cs(jx, S('x'))
         want = 'jnp.cumsum(x, axis)'
@@ -431,7 +431,7 @@ def zeros_like_slice(t, of):
   """jnp.zeros(shape of `of` with size 1 along axis)"""
   if not match.is_ext_call(t, 'zeros'):
     return False
-  shp = t.a[1][0] if t.a[1] else dict(t.a[2]).get('shape')
+  shp = t.a[1][0] if t.a[1] else util.call_kwargs(t).get('shape')
   if shp is None:
     return False
   return sym.contains(shp, lambda z: z == Term('attr', S(of), 'shape')) and sym.contains(shp, lambda z: z.k == 'store' and z.a[1] == S('axis') and z.a[2] == sym.const(1))
@@ -524,7 +524,7 @@ def rule_geopotential(chk, prog):
   ok = v.k == 'store' and v.a[3] == '=' and v.a[1] == sym.const(-1)
   if chk.check(ok, rule, f'{site}: α = ½·Δlog σ with the last entry overwritten', sym.show(v)[:200], loc):
     base, idx, val = v.a[0], v.a[1], v.a[2]
-    okb = (base.k == 'bin' and base.a[0] == '/' and base.a[2] == sym.const(2) and match.is_ext_call(base.a[1], 'diff') and dict(base.a[1].a[2]).get('append') == sym.const(0)
+    okb = (base.k == 'bin' and base.a[0] == '/' and base.a[2] == sym.const(2) and match.is_ext_call(base.a[1], 'diff') and util.call_kwargs(base.a[1]).get('append') == sym.const(0)
            and match.is_ext_call(base.a[1].a[1][0], 'log') and cen(base.a[1].a[1][0].a[1][0]))
     chk.check(okb, rule, f'{site}: α_j = (log σ_(j+1) − log σ_j) / 2 on the layer centres', sym.show(base), loc, 'diff(log(centers), append=0) / 2', sym.show(base))
     okv = (val.k == 'un' and val.a[0] == '-' and match.is_ext_call(val.a[1], 'log') and val.a[1].a[1][0].k == 'sub' and cen(val.a[1].a[1][0].a[0])
